@@ -999,10 +999,10 @@ ConcurrentTransientHashSet<T, H, E>::begin() noexcept {
   }
   while (ABSL_PREDICT_FALSE(node != nullptr)) {
     iter = node->table.begin();
-    if (iter != node->table.end()) {
-      return {nullptr, iter};
+    node = node->next.load(::std::memory_order_acquire);
+    if (iter) {
+      return {node, iter};
     }
-    node = _head.next.load(::std::memory_order_acquire);
   }
   return {};
 }
